@@ -390,6 +390,7 @@ func RegisterReplay(name string, fn ReplayFn) { replayFns[name] = fn }
 // signature is a known finding.
 func Replay(t *testing.T) {
 	loadEnv()
+	SetT(t)
 	files := os.Getenv("VERIF_REPLAY_FILES")
 	if files == "" {
 		t.Skip("no VERIF_REPLAY_FILES")
@@ -415,7 +416,13 @@ func Replay(t *testing.T) {
 		}
 		Eval(rf.Property)
 		Class(rf.Property, "replayed-file")
+		if statsOut != "" {
+			_ = os.WriteFile(statsOut+".inflight", b, 0o644)
+		}
 		err = runReplay(fn, rf.Case)
+		if statsOut != "" {
+			_ = os.Remove(statsOut + ".inflight")
+		}
 		if err != nil {
 			sig := rf.Sig
 			if se, ok := err.(*SigError); ok {
@@ -441,7 +448,11 @@ func Replay(t *testing.T) {
 func runReplay(fn ReplayFn, raw json.RawMessage) (err error) {
 	defer func() {
 		if r := recover(); r != nil {
-			err = &SigError{Sig: "panic", Err: fmt.Errorf("panic: %v\n%s", r, debug.Stack())}
+			st := string(debug.Stack())
+			if pw, ok := r.(*PanicWithStack); ok {
+				r, st = pw.Val, pw.Stack
+			}
+			err = &SigError{Sig: PanicSig(r, st), Err: fmt.Errorf("panic: %v\n%s", r, st)}
 		}
 	}()
 	return fn(raw)
